@@ -19,7 +19,7 @@ def main():
     checks = []
     for pid in all_ids:
         r = reg["claimed"].get(pid)
-        if not r:
+        if not r or pid not in reg.get("enabled", []):
             continue
         checks.append({
             "property_id": pid,
@@ -35,7 +35,7 @@ def main():
         })
     na = [{"property_id": pid, "reason": reg["not_applicable"].get(
         pid, "not yet built in this round: no check is registered, so nothing is claimed")}
-        for pid in all_ids if pid not in reg["claimed"]]
+        for pid in all_ids if pid not in reg["claimed"] or pid not in reg.get("enabled", [])]
     man = {
         "version": 1,
         "setup_cmd": "make -C /verif setup",
